@@ -160,6 +160,7 @@ def _rewrite(t, memo, found):
     return r
 
 
+FORCE_FUEL = [False]
 _FEAS_ONLY = set()     # functions abstracted in feasibility queries only (DictIdx: z3 spins on it there, ignoring its limits)
 
 
@@ -168,8 +169,9 @@ def register_feasibility_only(F, params, body):
     _FEAS_ONLY.add(F.name())
 
 
-def defuel(terms, fuel=1, feasibility=False):
-    """terms (z3 Bools) -> (rewritten terms, definition instances)."""
+def defuel(terms, fuel=1, feasibility=False, state=None):
+    """terms (z3 Bools) -> (rewritten terms, definition instances).  `state` (a dict kept by the caller) carries the
+    rewriting memo and the instances generated so far, so that a growing list of terms is only processed once."""
     if not _DEFS or (not feasibility and set(_DEFS) <= _FEAS_ONLY):
         return list(terms), []
     if not feasibility and _FEAS_ONLY:
@@ -178,19 +180,31 @@ def defuel(terms, fuel=1, feasibility=False):
             return defuel(terms, fuel, feasibility=True)
         finally:
             _DEFS.update(saved)
-    memo, found = {}, {}
-    out = [_rewrite(t, memo, found) for t in terms]
-    axioms, done = [], set()
-    for _ in range(fuel):
-        todo = [v for k, v in found.items() if k not in done]
-        if not todo:
-            break
-        for name, kids, app in todo:
-            done.add(app.get_id())
+    st = state if state is not None else {}
+    memo, found = st.setdefault("memo", {}), st.setdefault("found", {})
+    axioms, level = st.setdefault("axioms", []), st.setdefault("level", {})     # level[app id] = unfolding depth it was found at
+    out = []
+    for t in terms:
+        before = set(found)
+        out.append(_rewrite(t, memo, found))
+        for k in set(found) - before:
+            level[k] = 0
+    done = st.setdefault("done", set())
+    progress = True
+    while progress:
+        progress = False
+        for k, (name, kids, app) in list(found.items()):
+            if k in done or level.get(k, 0) >= fuel:
+                continue
+            done.add(k)
+            progress = True
             F, params, body = _DEFS[name]
             inst = z3.substitute(body, *list(zip(params, kids)))
+            before = set(found)
             axioms.append(app == _rewrite(inst, memo, found))
-    return out, axioms
+            for k2 in set(found) - before:
+                level[k2] = level.get(k, 0) + 1
+    return out, list(axioms)
 
 
 register_feasibility_only(V.DictIdx, *V.DICTIDX_DEF[0])
